@@ -269,6 +269,25 @@ pub fn worker(tier: &str, k: usize, n: usize, ctx: &mut Ctx) {
       }
     }
   }
+  // more shapes of sourceRoot (several trailing slashes as in "webpack://", only slashes, inner
+  // slashes, trailing blank) over every 5th segment list
+  for text in texts(tier) {
+    let (mut pos, end) = model::positions(text);
+    pos.push(end);
+    let lists = trees::seg_lists(&pos, &KINDS, 2);
+    for segs in lists.into_iter().step_by(5) {
+      for root in ["r//", "webpack://", "file:///", "/", "//", "a/b", "a/b/", "r/ ", "/r", "é/"] {
+        if !st.mine() {
+          continue;
+        }
+        let mut m = trees::map_spec(segs.clone(), true);
+        m.root = Some(root.to_string());
+        ctx.states += 1;
+        ctx.count("extra_source_root_cases");
+        c08_case(ctx, text, &m);
+      }
+    }
+  }
   // sorted but not strictly: a second segment at the same position (the later one decides)
   for text in texts(tier) {
     let (mut pos, end) = model::positions(text);
@@ -301,6 +320,7 @@ pub fn bounds(tier: &str) -> Value {
     "segment_positions": "every character position and the end-of-text position, strictly increasing; plus every list of <= 2 (thorough 3) segments with one position doubled (each kind for the second segment)",
     "segment_kinds": "unmapped 1-field; 4-field into source 0 / 1; 5-field with name 0 / 1; one location both with and without name",
     "source_roots": ["<none>", "", "r", "r/"],
+    "extra_source_roots_over_every_5th_list_of_up_to_2_segments": ["r//", "webpack://", "file:///", "/", "//", "a/b", "a/b/", "r/ ", "/r", "é/"],
     "modes": "columns x final in {T,F}^2 directly; map(true)/map(false) of Concat[sms, Raw('')]; same (T, M) through stream_chunks_default (event-for-event equal)",
   })
 }
